@@ -191,6 +191,196 @@ fn interp_case(sp: &Synth) -> String {
 }
 
 // ------------------------------------------------------------------------------------------------
+// composite graphs (core 2)
+// ------------------------------------------------------------------------------------------------
+
+#[derive(Clone, Debug, PartialEq)]
+enum GSpec {
+    Empty,
+    Simple(u16, bool),
+    Composite(Vec<u16>),
+}
+
+fn show_gspec(gs: &[GSpec]) -> String {
+    gs.iter()
+        .map(|g| match g {
+            GSpec::Empty => "E".to_string(),
+            GSpec::Simple(n, i) => format!("S:{n}:{}", *i as u8),
+            GSpec::Composite(cs) => format!("C:{}", cs.iter().map(|c| c.to_string()).collect::<Vec<_>>().join(".")),
+        })
+        .collect::<Vec<_>>()
+        .join(",")
+}
+
+fn parse_gspec(s: &str) -> Option<Vec<GSpec>> {
+    s.split(',')
+        .map(|t| {
+            let p: Vec<&str> = t.split(':').collect();
+            match p[0] {
+                "E" => Some(GSpec::Empty),
+                "S" if p.len() == 3 => Some(GSpec::Simple(p[1].parse().ok()?, p[2] == "1")),
+                "C" if p.len() == 2 => Some(GSpec::Composite(p[1].split('.').map(|c| c.parse().ok()).collect::<Option<Vec<u16>>>()?)),
+                _ => None,
+            }
+        })
+        .collect()
+}
+
+fn build_composite_font(gs: &[GSpec]) -> Result<Vec<u8>, String> {
+    use read_fonts::tables::glyf::CurvePoint;
+    use read_fonts::types::GlyphId16;
+    use write_fonts::tables::glyf::{Anchor, Bbox, Component, ComponentFlags, CompositeGlyph, Contour, GlyfLocaBuilder, Glyph, SimpleGlyph, Transform};
+    use write_fonts::tables::{head::Head, hhea::Hhea, hmtx::Hmtx, hmtx::LongMetric, maxp::Maxp};
+    let mut b = GlyfLocaBuilder::new();
+    let bbox = Bbox { x_min: 0, y_min: 0, x_max: 100, y_max: 100 };
+    for g in gs {
+        match g {
+            GSpec::Empty => b.add_glyph(&Glyph::Empty).map_err(|e| e.to_string())?,
+            GSpec::Simple(n, ins) => {
+                let pts: Vec<CurvePoint> = (0..*n as i16).map(|i| CurvePoint::on_curve(10 * i, (i % 3) * 40)).collect();
+                let contour: Contour = pts.into();
+                let sg = SimpleGlyph { bbox, contours: vec![contour], instructions: if *ins { vec![0x7F] } else { vec![] } };
+                b.add_glyph(&Glyph::Simple(sg)).map_err(|e| e.to_string())?
+            }
+            GSpec::Composite(cs) => {
+                let mk = |c: u16| Component::new(GlyphId16::new(c), Anchor::Offset { x: 1, y: 2 }, Transform::default(), ComponentFlags::default());
+                let mut cg = CompositeGlyph::new(mk(cs[0]), bbox);
+                for c in &cs[1..] {
+                    cg.add_component(mk(*c), bbox);
+                }
+                b.add_glyph(&Glyph::Composite(cg)).map_err(|e| e.to_string())?
+            }
+        };
+    }
+    let (glyf, loca, fmt) = b.build();
+    let n = gs.len() as u16;
+    let head = Head { units_per_em: 1000, index_to_loc_format: fmt as i16, ..Default::default() };
+    let maxp = Maxp {
+        num_glyphs: n,
+        max_points: Some(64),
+        max_contours: Some(1),
+        max_composite_points: Some(64),
+        max_composite_contours: Some(8),
+        max_zones: Some(2),
+        max_twilight_points: Some(0),
+        max_storage: Some(0),
+        max_function_defs: Some(0),
+        max_instruction_defs: Some(0),
+        max_stack_elements: Some(16),
+        max_size_of_instructions: Some(1),
+        max_component_elements: Some(4),
+        max_component_depth: Some(8),
+    };
+    let hhea = Hhea { number_of_h_metrics: 1, ..Default::default() };
+    let hmtx = Hmtx::new(vec![LongMetric::new(500, 0)], vec![0; n.saturating_sub(1) as usize]);
+    let mut fb = write_fonts::FontBuilder::new();
+    fb.add_table(&head).map_err(|e| e.to_string())?;
+    fb.add_table(&maxp).map_err(|e| e.to_string())?;
+    fb.add_table(&hhea).map_err(|e| e.to_string())?;
+    fb.add_table(&hmtx).map_err(|e| e.to_string())?;
+    fb.add_table(&glyf).map_err(|e| e.to_string())?;
+    fb.add_table(&loca).map_err(|e| e.to_string())?;
+    Ok(fb.build())
+}
+
+/// child side: `outline_glyphs().get(gid)` (this is where `Outlines::outline` / `outline_rec` run), the counters
+/// through the verif hook, then an unhinted and a hinted draw whose result class is reported separately
+fn composite_case(gid: u32, gs: &[GSpec]) -> String {
+    let data = match build_composite_font(gs) {
+        Ok(d) => d,
+        Err(e) => return format!("build-failed {e}"),
+    };
+    let Ok(font) = FontRef::new(&data) else { return "font-failed".into() };
+    let outlines = font.outline_glyphs();
+    let Some(g) = outlines.get(GlyphId::new(gid)) else { return "none".into() };
+    let Some(c) = skrifa::outline::verif_hooks::outline_counts(&g) else { return "no-counts".into() };
+    let mut pen = NullPen(0);
+    let d1 = match g.draw(DrawSettings::unhinted(Size::unscaled(), LocationRef::default()), &mut pen) {
+        Ok(_) => "ok".to_string(),
+        Err(e) => format!("{e:?}").split('(').next().unwrap_or("").to_string(),
+    };
+    let d2 = match HintingInstance::new(&outlines, Size::new(16.0), LocationRef::default(), HintingOptions { engine: Engine::Interpreter, target: Target::Mono }) {
+        Ok(inst) => match g.draw(DrawSettings::hinted(&inst, true), &mut pen) {
+            Ok(_) => "ok".to_string(),
+            Err(e) => format!("{e:?}").split('(').next().unwrap_or("").to_string(),
+        },
+        Err(_) => "noinst".into(),
+    };
+    format!(
+        "ok p={} c={} ms={} mo={} ds={} h={} draw={d1},{d2}",
+        c.points, c.contours, c.max_simple_points, c.max_other_points, c.max_component_delta_stack, c.has_hinting as u8
+    )
+}
+
+fn gen_composite(rng: &mut Rng, i: usize) -> (u32, Vec<GSpec>) {
+    match i % 8 {
+        0 => {
+            // chain around the depth limit
+            let d = 30 + rng.below(6) as u16;
+            let mut gs: Vec<GSpec> = (0..d).map(|k| GSpec::Composite(vec![k + 1])).collect();
+            gs.push(GSpec::Simple(3 + rng.below(4) as u16, rng.chance(1, 2)));
+            (0, gs)
+        }
+        1 => {
+            // cycle of length k with a tail
+            let tail = rng.below(4) as u16;
+            let k = 1 + rng.below(6) as u16;
+            let mut gs: Vec<GSpec> = (0..tail).map(|t| GSpec::Composite(vec![t + 1])).collect();
+            for j in 0..k {
+                let mut comps = vec![tail + (j + 1) % k];
+                if rng.chance(1, 2) {
+                    comps.insert(0, tail + k); // a simple glyph before the cyclic reference
+                }
+                gs.push(GSpec::Composite(comps));
+            }
+            gs.push(GSpec::Simple(4, false));
+            (0, gs)
+        }
+        2 => {
+            // fan-out-2 DAG, small depth
+            let d = 2 + rng.below(9) as u16;
+            let mut gs: Vec<GSpec> = (0..d).map(|k| GSpec::Composite(vec![k + 1, k + 1])).collect();
+            gs.push(GSpec::Simple(3, rng.chance(1, 2)));
+            (0, gs)
+        }
+        _ => {
+            // random graph
+            let n = 2 + rng.below(9) as u16;
+            let gs: Vec<GSpec> = (0..n)
+                .map(|_| match rng.below(10) {
+                    0 => GSpec::Empty,
+                    1..=4 => GSpec::Simple(3 + rng.below(5) as u16, rng.chance(1, 3)),
+                    _ => GSpec::Composite((0..1 + rng.below(3)).map(|_| if rng.chance(1, 12) { n + rng.below(3) as u16 } else { rng.below(n as u64) as u16 }).collect()),
+                })
+                .collect();
+            (rng.below(n as u64 + 1) as u32, gs)
+        }
+    }
+}
+
+/// harness-side graph facts for the model-independent oracles: is a cycle / a chain of >= 33 edges reachable?
+fn composite_must_fail(gid: u32, gs: &[GSpec]) -> bool {
+    // D_k(g) = longest chain of at most k component edges through present glyphs below g (cycle => grows with k)
+    let n = gs.len();
+    let mut d = vec![0u32; n];
+    for _ in 0..34 {
+        let mut nd = vec![0u32; n];
+        for g in 0..n {
+            if let GSpec::Composite(cs) = &gs[g] {
+                for c in cs {
+                    match gs.get(*c as usize) {
+                        Some(GSpec::Empty) | None => {}
+                        _ => nd[g] = nd[g].max(1 + d[*c as usize]),
+                    }
+                }
+            }
+        }
+        d = nd;
+    }
+    matches!(gs.get(gid as usize), Some(GSpec::Composite(_))) && d[gid as usize] >= 33
+}
+
+// ------------------------------------------------------------------------------------------------
 // program generator over the control-flow subset
 // ------------------------------------------------------------------------------------------------
 
@@ -639,19 +829,24 @@ fn model_req(sp: &Synth) -> String {
 struct Report {
     ops: u64,
     panics: u64,
-    first: Option<String>,
+    /// first failing operation per distinct panic site
+    sites: Vec<(String, String)>,
 }
 
 impl Report {
+    fn new() -> Self {
+        Report { ops: 0, panics: 0, sites: vec![] }
+    }
     fn guard<T>(&mut self, desc: impl FnOnce() -> String, f: impl FnOnce() -> T) -> Option<T> {
         self.ops += 1;
         match catch(f) {
             Ok(v) => Some(v),
             Err(msg) => {
                 self.panics += 1;
-                if self.first.is_none() {
+                let site = last_loc();
+                if self.sites.len() < 8 && !self.sites.iter().any(|(s, _)| *s == site) {
                     let m: String = msg.chars().take(160).collect();
-                    self.first = Some(format!("at=[{}] op=[{}] msg=[{}]", last_loc(), desc(), m.replace('\n', " ")));
+                    self.sites.push((site, format!("op=[{}] msg=[{}]", desc(), m.replace('\n', " "))));
                 }
                 None
             }
@@ -952,7 +1147,7 @@ fn battery_font(font: &FontRef, rng: &mut Rng, level: u32, rep: &mut Report) {
         let target = *rng.pick(&targets);
         let (sname, size) = rng.pick(&sizes).clone();
         let loc = rng.pick(&locs).clone();
-        let desc = format!("engine={engine:?} target={target:?} size={sname} loc={}", show_loc(&loc));
+        let mut desc = format!("engine={engine:?} target={target:?} size={sname} loc={}", show_loc(&loc));
         let inst = rep.guard(
             || format!("HintingInstance::new {desc}"),
             || HintingInstance::new(&outlines, size, LocationRef::new(&loc), HintingOptions { engine: engine.clone(), target }),
@@ -995,11 +1190,67 @@ fn battery_font(font: &FontRef, rng: &mut Rng, level: u32, rep: &mut Report) {
             let (sname2, size2) = rng.pick(&sizes).clone();
             let loc2 = rng.pick(&locs).clone();
             let ok = rep.guard(
-                || format!("reconfigure to engine={engine2:?} target={target2:?} size={sname2} loc={} from [{desc}]", show_loc(&loc2)),
+                || format!("reconfigure to engine={engine2:?} target={target2:?} size={sname2} loc={} from [{}]", show_loc(&loc2), desc.replace(" size=", " prevsize=")),
                 || inst.reconfigure(&outlines, size2, LocationRef::new(&loc2), HintingOptions { engine: engine2.clone(), target: target2 }).is_ok(),
             );
             if ok != Some(true) {
                 break;
+            }
+            desc = format!("engine={engine2:?} target={target2:?} size={sname2} loc={}", show_loc(&loc2));
+        }
+    }
+}
+
+fn load_blob(spec: &str) -> Option<Vec<u8>> {
+    if let Some(seed) = spec.strip_prefix("synth:") {
+        let mut rng = Rng::new(seed.parse().ok()?);
+        let mut sp = gen_hostile(&mut rng);
+        // benign programs: the point of this family is the mismatch of limits between two fonts
+        sp.fpgm = vec![];
+        sp.prep = vec![0xB0, 0, 0x21];
+        sp.glyph = Some(vec![0xB0, 1, 0x21, 0x7F]);
+        build_synth(&sp).ok()
+    } else {
+        std::fs::read(spec).ok()
+    }
+}
+
+/// hinting instance configured for font A, glyphs of font B (the instance is caller-supplied configuration)
+fn battery_cross(a: &[u8], b: &[u8], seed: u64, rep: &mut Report) {
+    let mut rng = Rng::new(seed);
+    let (Ok(fa), Ok(fb)) = (FontRef::from_index(a, 0), FontRef::from_index(b, 0)) else { return };
+    let oa = fa.outline_glyphs();
+    let ob = fb.outline_glyphs();
+    let nb = fb.maxp().map(|m| m.num_glyphs() as u32).unwrap_or(0);
+    let sizes = all_sizes();
+    let targets = all_targets();
+    let engines = all_engines();
+    for _ in 0..6 {
+        let engine = rng.pick(&engines).clone();
+        let target = *rng.pick(&targets);
+        let (sname, size) = if rng.chance(2, 3) { ("16".to_string(), Size::new(16.0)) } else { rng.pick(&sizes).clone() };
+        let desc = format!("engine={engine:?} target={target:?} size={sname}");
+        let Some(Ok(inst)) = rep.guard(
+            || format!("cross HintingInstance::new(A) {desc}"),
+            || HintingInstance::new(&oa, size, LocationRef::default(), HintingOptions { engine: engine.clone(), target }),
+        ) else {
+            continue;
+        };
+        for g in pick_gids(&mut rng, nb, 4).into_iter().take(10) {
+            let Some(glyph) = ob.get(GlyphId::new(g)) else { continue };
+            for pedantic in [false, true] {
+                let with_buf = rng.chance(1, 3);
+                rep.guard(
+                    || format!("cross draw glyph {g} of B through instance of A pedantic={pedantic} buf={with_buf} inst[{desc}]"),
+                    || {
+                        let mut pen = NullPen(0);
+                        let mut backing = vec![0u8; glyph.draw_memory_size(Hinting::Embedded) + 8];
+                        let settings = DrawSettings::hinted(&inst, pedantic);
+                        let settings = if with_buf { settings.with_memory(Some(&mut backing[..])) } else { settings };
+                        let _ = glyph.draw(settings, &mut pen);
+                        pen.0
+                    },
+                );
             }
         }
     }
@@ -1428,10 +1679,20 @@ fn child_request(line: &str) -> String {
             },
             None => "bad-request".into(),
         },
+        "composite" if t.len() == 3 => {
+            let gid: u32 = t[1].parse().unwrap_or(0);
+            match parse_gspec(t[2]) {
+                Some(gs) => match catch(|| composite_case(gid, &gs)) {
+                    Ok(r) => r,
+                    Err(m) => format!("panic at=[{}] {}", last_loc(), m.replace('\n', " ")),
+                },
+                None => "bad-request".into(),
+            }
+        }
         "hostile" => match parse_synth(&t[1..t.len() - 1]) {
             Some(sp) => {
                 let seed: u64 = t[t.len() - 1].parse().unwrap_or(0);
-                let mut rep = Report { ops: 0, panics: 0, first: None };
+                let mut rep = Report::new();
                 match build_synth(&sp) {
                     Ok(data) => battery_blob(&data, seed, 0, &mut rep),
                     Err(e) => return format!("build-failed {e}"),
@@ -1447,13 +1708,20 @@ fn child_request(line: &str) -> String {
             let bseed: u64 = t[3].parse().unwrap_or(0);
             let level: u32 = t[4].parse().unwrap_or(0);
             let mdesc = if mseed != 0 { mutate_font(&mut data, mseed) } else { "pristine".into() };
-            let mut rep = Report { ops: 0, panics: 0, first: None };
+            let mut rep = Report::new();
             battery_blob(&data, bseed, level, &mut rep);
             finish_report(rep, &format!("mutation=[{mdesc}]"))
         }
+        "cross" if t.len() == 4 => {
+            let (Some(a), Some(b)) = (load_blob(t[1]), load_blob(t[2])) else { return "read-failed".into() };
+            let seed: u64 = t[3].parse().unwrap_or(0);
+            let mut rep = Report::new();
+            battery_cross(&a, &b, seed, &mut rep);
+            finish_report(rep, "")
+        }
         "ift" if t.len() == 2 => {
             let seed: u64 = t[1].parse().unwrap_or(0);
-            let mut rep = Report { ops: 0, panics: 0, first: None };
+            let mut rep = Report::new();
             let d = ift_battery(seed, &mut rep);
             finish_report(rep, &format!("ift=[{d}]"))
         }
@@ -1462,9 +1730,11 @@ fn child_request(line: &str) -> String {
 }
 
 fn finish_report(rep: Report, extra: &str) -> String {
-    match rep.first {
-        None => format!("ok ops={}", rep.ops),
-        Some(f) => format!("panic count={} {f} {extra}", rep.panics),
+    if rep.sites.is_empty() {
+        format!("ok ops={}", rep.ops)
+    } else {
+        let parts: Vec<String> = rep.sites.iter().map(|(site, d)| format!("at=[{site}] {d}")).collect();
+        format!("panic count={} {extra} ;; {}", rep.panics, parts.join(" ;; "))
     }
 }
 
@@ -1610,12 +1880,28 @@ fn run_jobs(jobs: &[String], cap: Duration, nworkers: usize) -> Vec<String> {
 // parent
 // ------------------------------------------------------------------------------------------------
 
-/// failing input = replayable child request + the panic site reported by the child (so that known findings can be
-/// keyed by site)
-fn fail_input(job: &str, resp: &str) -> String {
-    let site = resp.split("at=[").nth(1).and_then(|r| r.split(']').next()).unwrap_or("-");
+/// One oracle evaluation per battery; on failure one failure record per distinct panic site.  The failing input is
+/// the replayable child request + panic site + size argument + panic class (so that known findings can be keyed by
+/// site and input signature).
+fn record(s: &mut Session, oracle: &str, job: &str, resp: &str) {
     let j: String = if job.len() > 1500 { format!("{}…({} chars)", &job[..1500], job.len()) } else { job.to_string() };
-    format!("{j} :: at={site}")
+    if resp.starts_with("ok ") {
+        s.oracle(oracle, true, String::new, String::new);
+        return;
+    }
+    let parts: Vec<&str> = resp.split(" ;; ").collect();
+    if !resp.starts_with("panic ") || parts.len() < 2 {
+        // abort / timeout / protocol error
+        s.oracle(oracle, false, || format!("{j} :: at=- :: size=- :: kind={}", resp.split_whitespace().next().unwrap_or("?")), || resp.to_string());
+        return;
+    }
+    for p in &parts[1..] {
+        let site = p.split("at=[").nth(1).and_then(|r| r.split(']').next()).unwrap_or("-");
+        let site = site.trim_start_matches("/tmp/wt-c02/");
+        let size = p.split(" size=").nth(1).and_then(|r| r.split_whitespace().next()).unwrap_or("-").trim_end_matches(']');
+        let kind = if p.contains("with overflow]") { "overflow" } else { "other" };
+        s.oracle(oracle, false, || format!("{j} :: at={site} :: size={size} :: kind={kind}"), || format!("{} ;; {p}", parts[0]));
+    }
 }
 
 fn query_driver(cfg: &Config, reqs: &[String]) -> Vec<String> {
@@ -1667,6 +1953,44 @@ fn run(cfg: &Config, s: &mut Session) {
         s.case("interp", model_req(sp), r.clone());
     }
 
+    // ---- 1b. composite graphs: correspondence with Model/Composite.lean + oracles
+    let n_comp = if thorough { 6000 } else { 800 };
+    let comps: Vec<(u32, Vec<GSpec>)> = (0..n_comp).map(|i| gen_composite(&mut rng, i)).collect();
+    let jobs: Vec<String> = comps.iter().map(|(g, gs)| format!("composite {g} {}", show_gspec(gs))).collect();
+    let res = run_jobs(&jobs, cap, nworkers);
+    for ((g, gs), (j, r)) in comps.iter().zip(jobs.iter().zip(res.iter())) {
+        let sane = r == "none" || r.starts_with("ok ");
+        s.oracle("composite-load-returns", sane, || j.clone(), || r.clone());
+        if composite_must_fail(*g, gs) {
+            s.count("composite:must-fail");
+            s.oracle("composite-cycle-or-depth-over-32-is-absent", r == "none", || j.clone(), || r.clone());
+        }
+        s.count(&format!("composite:{}", if r == "none" { "none" } else { r.split_whitespace().last().unwrap_or("?") }));
+        // the model answers everything up to the draw classes
+        let head = r.split(" draw=").next().unwrap_or("").to_string();
+        s.case("composite", j.clone(), head);
+    }
+    // exponential DAG: time of `outline_glyphs().get` alone (finding family, see known_findings.d/C02.json)
+    let dag_jobs: Vec<String> = [16u16, 20, 31]
+        .iter()
+        .map(|d| {
+            let mut gs: Vec<GSpec> = (0..*d).map(|k| GSpec::Composite(vec![k + 1, k + 1])).collect();
+            gs.push(GSpec::Simple(3, false));
+            format!("composite 0 {}", show_gspec(&gs))
+        })
+        .collect();
+    let res = run_jobs(&dag_jobs, Duration::from_secs(if thorough { 20 } else { 8 }), 3);
+    for (j, r) in dag_jobs.iter().zip(res.iter()) {
+        let depth = j.matches("C:").count();
+        s.count(&format!("composite-dag depth={depth}: {}", r.split_whitespace().next().unwrap_or("?")));
+        s.oracle(
+            "composite-dag-loads-within-the-time-cap",
+            r == "none" || r.starts_with("ok "),
+            || format!("family=dag2 depth={depth} {j}"),
+            || r.clone(),
+        );
+    }
+
     // ---- 2. exploration: corpus fonts, pristine and corrupted
     let files = corpus_files();
     let n_mut = if thorough { 60 } else { 7 };
@@ -1687,7 +2011,7 @@ fn run(cfg: &Config, s: &mut Session) {
         }
         let fam = if j.split_whitespace().nth(2) == Some("0") { "pristine" } else { "corrupted" };
         s.count(&format!("font:{fam}:{}", r.split_whitespace().next().unwrap_or("?")));
-        s.oracle(&format!("skrifa-total-on-{fam}-font"), ok, || fail_input(j, r), || r.clone());
+        record(s, &format!("skrifa-total-on-{fam}-font"), j, r);
     }
     s.notes.push(format!("font batteries: {total_ops} guarded API operations"));
 
@@ -1707,9 +2031,36 @@ fn run(cfg: &Config, s: &mut Session) {
             total_ops += r.trim_start_matches("ok ops=").parse::<u64>().unwrap_or(0);
         }
         s.count(&format!("hostile:{}", r.split_whitespace().next().unwrap_or("?")));
-        s.oracle("skrifa-total-on-hostile-bytecode", ok, || fail_input(j, r), || r.clone());
+        record(s, "skrifa-total-on-hostile-bytecode", j, r);
     }
     s.notes.push(format!("hostile bytecode batteries: {total_ops} guarded API operations"));
+
+    // ---- 3b. exploration: hinting instance of one font, glyphs of another
+    let n_cross = if thorough { 1500 } else { 150 };
+    let glyf_fonts: Vec<String> = files
+        .iter()
+        .filter(|f| std::fs::read(f).ok().and_then(|d| FontRef::from_index(&d, 0).ok().map(|f| f.glyf().is_ok() || f.cff().is_ok() || f.cff2().is_ok())).unwrap_or(false))
+        .map(|f| f.display().to_string())
+        .collect();
+    let cross_jobs: Vec<String> = (0..n_cross)
+        .map(|_| {
+            let mut pick = |rng: &mut Rng| {
+                if rng.chance(1, 2) || glyf_fonts.is_empty() {
+                    format!("synth:{}", rng.next() % 100_000)
+                } else {
+                    rng.pick(&glyf_fonts).clone()
+                }
+            };
+            let a = pick(&mut rng);
+            let b = pick(&mut rng);
+            format!("cross {a} {b} {}", rng.next() % 1_000_000)
+        })
+        .collect();
+    let res = run_jobs(&cross_jobs, cap, nworkers);
+    for (j, r) in cross_jobs.iter().zip(res.iter()) {
+        s.count(&format!("cross:{}", r.split_whitespace().next().unwrap_or("?")));
+        record(s, "skrifa-total-with-hinting-instance-of-another-font", j, r);
+    }
 
     // ---- 4. exploration: IFT client
     let n_ift = if thorough { 20000 } else { 1500 };
@@ -1722,7 +2073,7 @@ fn run(cfg: &Config, s: &mut Session) {
             total_ops += r.trim_start_matches("ok ops=").parse::<u64>().unwrap_or(0);
         }
         s.count(&format!("ift:{}", r.split_whitespace().next().unwrap_or("?")));
-        s.oracle("ift-client-total", ok, || fail_input(j, r), || r.clone());
+        record(s, "ift-client-total", j, r);
     }
     s.notes.push(format!("ift batteries: {total_ops} guarded API operations"));
 }
